@@ -743,7 +743,14 @@ class Class(CanContainImportsDocumentable):
             in the AST visitors, it will return the same as C{list(self.allbases(include_self))}.
         """
         if self._mro is None:
-            return list(self.allbases(include_self))
+            # Not post-processed yet: linearise the bases known by now the way Python does,
+            # such that a lookup made while the modules are being parsed finds the same definition
+            # as one made afterwards. Fall back to the depth-first order when that is not possible.
+            try:
+                early = mro.mro(self, lambda o: [b for b in o.baseobjects if b is not None])
+            except (ValueError, RecursionError):
+                early = list(dict.fromkeys(self.allbases(True)))
+            return early if include_self else early[1:]
         _mro: Sequence[Union[str, Class]]
         if include_external is False:
             _mro = [o for o in self._mro if not isinstance(o, str)]
